@@ -511,7 +511,7 @@ def run(check):
             for k, v in c["feats"].items():
                 if k in ("keyword-tag", "type-override", "decorator", "doc", "item-rename", "rename", "default", "const", "alias", "enum", "struct"):
                     check.count(k, v)
-            agree = "ambiguous" in ma or ma == ra
+            agree = ma == ra
             bad = judge(check, c, ra_raw, lexok.get(ci, {})) if "ok" in ra_raw else []
             reported = lang in reported_langs
             if bad and not reported:
